@@ -8,10 +8,18 @@
 //   redt   S:<reduce|accum> S:<add|multiply> S:<T> S:<dtype>   element type of reduce_<fn> / accumulate_<fn>(a, 0, dtype) (type only)
 //   evalk  S:<add|lin> I:<na> I:<nb> <A> <B>            operands with a compile-time SIZE (std::array buffer) and a run-time shape
 //            (ndarray_t<std::array<T,N>, std::vector<size_t>>), evaluated: two-sided broadcasting must give the full result
+//   ascal  S:<add|subtract|multiply|divide|power|maximum|minimum|less|where> S:<arrT> S:<scalT> S:<l|r> <A> I:<n>
+//            array op scalar of ANOTHER element type, scalar on the left / right (floating scalar = n/4) -> values ; view=<type>
 // T: i8 u8 i16 u16 i32 i64 f32 f64     dtype: none i8 i16 i32 i64 f32 f64
 #include "nmtools/array/view/ufuncs/add.hpp"
 #include "nmtools/array/view/ufuncs/subtract.hpp"
 #include "nmtools/array/view/ufuncs/multiply.hpp"
+#include "nmtools/array/view/ufuncs/divide.hpp"
+#include "nmtools/array/view/ufuncs/power.hpp"
+#include "nmtools/array/view/ufuncs/maximum.hpp"
+#include "nmtools/array/view/ufuncs/minimum.hpp"
+#include "nmtools/array/view/ufuncs/less.hpp"
+#include "nmtools/array/view/where.hpp"
 #include "nmtools/array/eval.hpp"
 #include "show.hpp"
 #include <cstdint>
@@ -79,7 +87,41 @@ static std::string evalk_case(const std::string& fn, const Arg& A, const Arg& B)
     return "unsupported";
 }
 
+// ---- array op scalar over element-type PAIRS, scalar on either side; a floating scalar is I:<n> meaning n/4
+template <typename AT, typename ST>
+static std::string ascal_case(const std::string& fn, const std::string& pos, const Arg& A, ll n) {
+    auto a = make_array<dyn_t<AT>>(A);
+    ST k = std::is_floating_point_v<ST> ? (ST)((double)n / 4) : (ST)n;
+    auto pr = [](const auto& mv) -> std::string {
+        if constexpr (meta::is_maybe_v<meta::remove_cvref_t<decltype(mv)>>) { if (!nm::has_value(mv)) return "nothing"; }
+        const auto& v = nm::unwrap(mv); return show(v) + " ; view=" + elem_name(v);
+    };
+    auto bin = [&](auto f) -> std::string { if (pos == "r") return pr(f(a, k)); return pr(f(k, a)); };
+    if (fn == "add") return bin([](const auto& x, const auto& y) { return view::add(x, y); });
+    if (fn == "subtract") return bin([](const auto& x, const auto& y) { return view::subtract(x, y); });
+    if (fn == "multiply") return bin([](const auto& x, const auto& y) { return view::multiply(x, y); });
+    if (fn == "divide") return bin([](const auto& x, const auto& y) { return view::divide(x, y); });
+    if (fn == "power") return bin([](const auto& x, const auto& y) { return view::power(x, y); });
+    if (fn == "maximum") return bin([](const auto& x, const auto& y) { return view::maximum(x, y); });
+    if (fn == "minimum") return bin([](const auto& x, const auto& y) { return view::minimum(x, y); });
+    if (fn == "less") return bin([](const auto& x, const auto& y) { return view::less(x, y); });
+    if (fn == "where") { if (pos == "r") return pr(view::where(a, a, k)); return pr(view::where(a, k, a)); }   // condition = a
+    return "unsupported";
+}
+
 static std::string handle(const Case& c) {
+    if (c.op == "ascal") {
+        // ascal S:<fn> S:<arrT> S:<scalT> S:<l|r> <A> I:<n>       pos = the side the scalar is on
+        const std::string fn = c.args[0].raw.substr(2), p = c.args[1].raw.substr(2) + ":" + c.args[2].raw.substr(2), pos = c.args[3].raw.substr(2);
+        const Arg& A = c.args[4]; ll n = c.args[5].val;
+        if (p == "i32:f64") return ascal_case<int32_t, double>(fn, pos, A, n);
+        if (p == "i8:i32") return ascal_case<int8_t, int32_t>(fn, pos, A, n);
+        if (p == "u8:i64") return ascal_case<uint8_t, int64_t>(fn, pos, A, n);
+        if (p == "i16:f32") return ascal_case<int16_t, float>(fn, pos, A, n);
+        if (p == "f32:f64") return ascal_case<float, double>(fn, pos, A, n);
+        if (p == "i64:f64") return ascal_case<int64_t, double>(fn, pos, A, n);
+        return "unsupported";
+    }
     if (c.op == "cast") {
         const std::string fn = c.args[0].raw.substr(2), form = c.args[1].raw.substr(2), t = c.args[2].raw.substr(2);
         return with_T(t, [&](auto tag) -> std::string {
